@@ -1684,6 +1684,44 @@ def rw_zip_collected(func, k):
     return True
 
 
+def rw_extend_literal(func, k):
+    """L.extend([a, b, ...])   ->   L.append(a) ; L.append(b) ; ...        (elements are evaluated in the same order; L pure)"""
+    sites = []
+    for owner, fld, blk in blocks_of(func):
+        for st in blk:
+            if isinstance(st, ast.Expr) and isinstance(st.value, ast.Call) and isinstance(st.value.func, ast.Attribute) and st.value.func.attr == 'extend' and len(st.value.args) == 1 \
+                    and not st.value.keywords and isinstance(st.value.args[0], (ast.List, ast.Tuple)) and 1 <= len(st.value.args[0].elts) <= 6 \
+                    and not any(isinstance(e, ast.Starred) for e in st.value.args[0].elts) and _is_pure(st.value.func.value, allow_calls=False):
+                base = ast.unparse(st.value.func.value)
+                if not any(base in ast.unparse(e) for e in st.value.args[0].elts):
+                    sites.append((blk, st))
+    if k >= len(sites):
+        return False
+    blk, st = sites[k]
+    out = [fix(ast.Expr(value=ast.Call(func=ast.Attribute(value=copy.deepcopy(st.value.func.value), attr='append', ctx=ast.Load()), args=[e], keywords=[])), st) for e in st.value.args[0].elts]
+    i = blk.index(st)
+    blk[i:i + 1] = out
+    return True
+
+
+def rw_unpack_name(func, k):
+    """a, b = T   ->   a = T[0] ; b = T[1]        (T a plain name; the values are those of a successful unpacking)"""
+    sites = []
+    for owner, fld, blk in blocks_of(func):
+        for st in blk:
+            if isinstance(st, ast.Assign) and len(st.targets) == 1 and isinstance(st.targets[0], ast.Tuple) and 2 <= len(st.targets[0].elts) <= 4 and isinstance(st.value, ast.Name) \
+                    and all(isinstance(t, ast.Name) and t.id != st.value.id for t in st.targets[0].elts):
+                sites.append((blk, st))
+    if k >= len(sites):
+        return False
+    blk, st = sites[k]
+    out = [fix(ast.Assign(targets=[ast.Name(id=t.id, ctx=ast.Store())], value=ast.Subscript(value=ast.Name(id=st.value.id, ctx=ast.Load()), slice=ast.Constant(value=j), ctx=ast.Load())), st)
+           for j, t in enumerate(st.targets[0].elts)]
+    i = blk.index(st)
+    blk[i:i + 1] = out
+    return True
+
+
 def rw_subscripted_literal(func, k):
     """(a, b)[i]   <->   [a, b][i]"""
     sites = [n for n in ast.walk(func) if isinstance(n, ast.Subscript) and isinstance(n.ctx, ast.Load) and isinstance(n.value, (ast.Tuple, ast.List)) and not isinstance(n.slice, ast.Slice)]
@@ -3197,7 +3235,7 @@ def rw_inline_helper(func, k):
     return True
 
 
-GUIDED = [rw_zip_collected, rw_zip_to_index, rw_inline_helper, rw_extract_temp, rw_flatten_comp_filter, rw_first_of_concat, rw_split_tuple_assign, rw_augcomp_to_loop, rw_len_zero, rw_bool_ifexp, rw_singleton_comp, rw_ndenumerate_value, rw_flat_to_ndenumerate, rw_slice_zero, rw_flip_compare, rw_keyword_to_positional, rw_fstring_to_percent, rw_np_all_any, rw_range_min_guard, rw_membership_container, rw_drop_default_arg, rw_unpack_first, rw_use_alias, rw_ravel_flatten, rw_last_appended, rw_pass_branch, rw_dictcomp_to_loop, rw_none_flag, rw_argcomp_to_loop, rw_hoist_return, rw_get_none, rw_else_after_exit_wrap, rw_else_after_exit_unwrap, rw_comp_to_loop, rw_loop_to_comp, rw_not_compare, rw_demorgan, rw_swap_branches, rw_merge_nested_if, rw_split_and_if, rw_guard_to_swapped_else, rw_swapped_else_to_guard, rw_drop_tail_return, rw_add_tail_return, rw_element_to_index_loop, rw_fuse_loops, rw_late_publication, rw_drop_tail_continue, rw_items_loop, rw_filter_loop, rw_loop_to_update, rw_is_false, rw_hoist_common_tail, rw_sink_common_tail, rw_try_tail_out, rw_try_tail_in, rw_genexp_loop, rw_guarded_subscript_get, rw_update_to_loop, rw_tolist_index, rw_fuse_nested_comp, rw_split_elif_after_exit, rw_join_elif_after_exit, rw_np_synonym, rw_append_augadd, rw_list_call_to_comp, rw_last_is_appended, rw_move_append, rw_append_comp_to_loop, rw_split_append_concat, rw_enumerate_to_index, rw_subscripted_literal, rw_extend_to_loop, rw_comp_over_collected, rw_tail_pass_to_continue, rw_split_or_exit, rw_merge_exit_ifs, rw_unroll_const_loop, rw_drop_noop_pass, rw_ifexp_to_if, rw_if_to_ifexp, rw_bool_to_if, rw_kwargs_default, rw_trailing_return, rw_enumerate, rw_return_temp]
+GUIDED = [rw_zip_collected, rw_zip_to_index, rw_inline_helper, rw_extract_temp, rw_flatten_comp_filter, rw_first_of_concat, rw_split_tuple_assign, rw_augcomp_to_loop, rw_len_zero, rw_bool_ifexp, rw_singleton_comp, rw_ndenumerate_value, rw_flat_to_ndenumerate, rw_slice_zero, rw_flip_compare, rw_keyword_to_positional, rw_fstring_to_percent, rw_np_all_any, rw_range_min_guard, rw_membership_container, rw_drop_default_arg, rw_unpack_first, rw_use_alias, rw_ravel_flatten, rw_last_appended, rw_pass_branch, rw_dictcomp_to_loop, rw_none_flag, rw_argcomp_to_loop, rw_hoist_return, rw_get_none, rw_else_after_exit_wrap, rw_else_after_exit_unwrap, rw_comp_to_loop, rw_loop_to_comp, rw_not_compare, rw_demorgan, rw_swap_branches, rw_merge_nested_if, rw_split_and_if, rw_guard_to_swapped_else, rw_swapped_else_to_guard, rw_drop_tail_return, rw_add_tail_return, rw_element_to_index_loop, rw_fuse_loops, rw_late_publication, rw_drop_tail_continue, rw_items_loop, rw_filter_loop, rw_loop_to_update, rw_is_false, rw_hoist_common_tail, rw_sink_common_tail, rw_try_tail_out, rw_try_tail_in, rw_genexp_loop, rw_guarded_subscript_get, rw_update_to_loop, rw_extend_literal, rw_unpack_name, rw_tolist_index, rw_fuse_nested_comp, rw_split_elif_after_exit, rw_join_elif_after_exit, rw_np_synonym, rw_append_augadd, rw_list_call_to_comp, rw_last_is_appended, rw_move_append, rw_append_comp_to_loop, rw_split_append_concat, rw_enumerate_to_index, rw_subscripted_literal, rw_extend_to_loop, rw_comp_over_collected, rw_tail_pass_to_continue, rw_split_or_exit, rw_merge_exit_ifs, rw_unroll_const_loop, rw_drop_noop_pass, rw_ifexp_to_if, rw_if_to_ifexp, rw_bool_to_if, rw_kwargs_default, rw_trailing_return, rw_enumerate, rw_return_temp]
 
 
 def _clone(node):
@@ -3208,7 +3246,7 @@ def _clone(node):
         return copy.deepcopy(node)
 
 
-ENABLERS = {rw_subscripted_literal: [rw_extract_temp], rw_loop_to_comp: [rw_inline_temp], rw_keyword_to_positional: [rw_extract_temp, rw_keyword_to_positional], rw_list_call_to_comp: [rw_comp_to_loop], rw_zip_to_index: [rw_extract_temp], rw_comp_to_loop: [rw_enumerate_to_index, rw_zip_to_index, rw_split_append_concat, rw_append_comp_to_loop]}
+ENABLERS = {rw_subscripted_literal: [rw_extract_temp], rw_unpack_name: [rw_extend_literal, rw_inline_temp], rw_extend_literal: [rw_unpack_name, rw_inline_temp], rw_loop_to_comp: [rw_inline_temp], rw_keyword_to_positional: [rw_extract_temp, rw_keyword_to_positional], rw_list_call_to_comp: [rw_comp_to_loop], rw_zip_to_index: [rw_extract_temp], rw_comp_to_loop: [rw_enumerate_to_index, rw_zip_to_index, rw_split_append_concat, rw_append_comp_to_loop]}
 REMOVALS = (rw_drop_tail_return, rw_drop_tail_continue, rw_drop_noop_pass, rw_fuse_loops)
 
 
